@@ -111,21 +111,50 @@ Proof.
     split; [unfold ref_table_of; rewrite Ef; reflexivity|]. split; [apply is_nil_false; exact Ec|exact Em].
 Qed.
 
+(* the walk over the inputs and their components (parent first) *)
+Lemma input_refs_app : forall a b, input_refs (a ++ b) = input_refs a ++ input_refs b.
+Proof. intros. unfold input_refs. apply flat_map_app. Qed.
+
+Lemma fix_input_spec : forall igs0 i i' ds a,
+  fix_input igs0 i = Some (i', ds, a) ->
+  ds = input_refs (flat_input i) /\ input_refs (flat_input i') = input_refs (flat_input i)
+  /\ Forall (fun x => ref_resolved igs0 (i_flt x)) (flat_input i').
+Proof.
+  intros igs0. induction i as [ix n c f cs IH] using input_ind'. intros i' ds a H.
+  rewrite fix_input_eq in H.
+  destruct (fix_filter igs0 f) as [[[f' d1] a1]|] eqn:Ef; [|discriminate].
+  destruct (fix_inputs igs0 cs) as [[[cs' dc] ac]|] eqn:Ec; [|discriminate].
+  inversion H; subst i' ds a; clear H.
+  destruct (fix_filter_spec _ _ _ _ _ Ef) as (F1 & F2 & F3 & _).
+  assert (Hrec : dc = input_refs (flat_map flat_input cs)
+                 /\ input_refs (flat_map flat_input cs') = input_refs (flat_map flat_input cs)
+                 /\ Forall (fun x => ref_resolved igs0 (i_flt x)) (flat_map flat_input cs')).
+  { clear Ef F1 F2 F3. revert cs' dc ac Ec. induction cs as [|x r IHr]; intros cs' dc ac Ec; cbn [fix_inputs] in Ec.
+    - inversion Ec; subst. repeat split; constructor.
+    - apply Forall_cons_iff in IH as [IHx IHrest].
+      destruct (fix_input igs0 x) as [[[x' dx] ax]|] eqn:Ex; [|discriminate].
+      destruct (fix_inputs igs0 r) as [[[r' dr] ar]|] eqn:Er; [|discriminate].
+      inversion Ec; subst cs' dc ac; clear Ec.
+      destruct (IHx _ _ _ eq_refl) as (X1 & X2 & X3). destruct (IHr IHrest _ _ _ eq_refl) as (R1 & R2 & R3).
+      cbn [flat_map]. rewrite !input_refs_app. subst dx dr.
+      split; [reflexivity|]. split; [rewrite X2, R2; reflexivity|]. apply Forall_app. split; assumption. }
+  destruct Hrec as (C1 & C2 & C3). cbn [flat_input]. unfold input_refs in *. cbn [flat_map i_flt]. subst d1 dc.
+  split; [reflexivity|]. split; [rewrite F2, C2; reflexivity|]. constructor; [exact F3|exact C3].
+Qed.
+
 Lemma fix_inputs_spec : forall igs0 l l' ds a,
   fix_inputs igs0 l = Some (l', ds, a) ->
-  ds = input_refs l /\ input_refs l' = input_refs l
-  /\ Forall (fun i => ref_resolved igs0 (i_flt i)) l'
-  /\ map i_comps l' = map i_comps l.
+  ds = input_refs (all_inputs l) /\ input_refs (all_inputs l') = input_refs (all_inputs l)
+  /\ Forall (fun i => ref_resolved igs0 (i_flt i)) (all_inputs l').
 Proof.
-  intros igs0 l. induction l as [|[ix n c f cs] r IH]; intros l' ds a H; cbn [fix_inputs] in H.
+  intros igs0 l. induction l as [|x r IH]; intros l' ds a H; cbn [fix_inputs] in H.
   - inversion H; subst. repeat split; constructor.
-  - destruct (fix_filter igs0 f) as [[[f' d1] a1]|] eqn:Ef; [|discriminate].
-    destruct (fix_inputs igs0 r) as [[[r' ds'] as']|] eqn:Er; [|discriminate].
-    inversion H; subst l' ds a. destruct (IH _ _ _ eq_refl) as (A & B & C & D).
-    destruct (fix_filter_spec _ _ _ _ _ Ef) as (F1 & F2 & F3 & _).
-    unfold input_refs in *. cbn [flat_map i_flt map i_comps]. subst d1 ds'.
-    split; [reflexivity|]. split; [rewrite F2, B; reflexivity|]. split; [constructor; [exact F3|exact C]|].
-    rewrite D. reflexivity.
+  - destruct (fix_input igs0 x) as [[[x' dx] ax]|] eqn:Ex; [|discriminate].
+    destruct (fix_inputs igs0 r) as [[[r' dr] ar]|] eqn:Er; [|discriminate].
+    inversion H; subst l' ds a. destruct (IH _ _ _ eq_refl) as (A & B & C).
+    destruct (fix_input_spec _ _ _ _ _ Ex) as (X1 & X2 & X3).
+    unfold all_inputs in *. cbn [flat_map]. rewrite !input_refs_app. subst dx dr.
+    split; [reflexivity|]. split; [rewrite X2, B; reflexivity|]. apply Forall_app. split; assumption.
 Qed.
 
 Lemma fix_block_spec : forall igs0 l l' ds a,
@@ -146,7 +175,7 @@ Qed.
 (* everything one pass establishes about one integration, [igs] being the
    configuration the references are resolved in *)
 Definition filters_resolved (igs : list integ) (g : integ) : Prop :=
-  Forall (fun i => ref_resolved igs (i_flt i)) (ig_inputs g)
+  Forall (fun i => ref_resolved igs (i_flt i)) (all_inputs (ig_inputs g))
   /\ Forall (fun b => ref_resolved igs (bd_flt b)) (ig_block g).
 
 Lemma fix_ig_spec : forall igs0 g g' a,
@@ -157,7 +186,7 @@ Proof.
   destruct (fix_inputs igs0 (ig_inputs g)) as [[[ins d1] a1]|] eqn:Ei; [|discriminate].
   destruct (fix_block igs0 (ig_block g)) as [[[bl d2] a2]|] eqn:Eb; [|discriminate].
   inversion H; subst g' a.
-  destruct (fix_inputs_spec _ _ _ _ _ Ei) as (A1 & A2 & A3 & _).
+  destruct (fix_inputs_spec _ _ _ _ _ Ei) as (A1 & A2 & A3).
   destruct (fix_block_spec _ _ _ _ _ Eb) as (B1 & B2 & B3).
   unfold deps_rel, declared_refs, filters_resolved. cbn [ig_name ig_deps ig_inputs ig_block ig_table].
   subst d1 d2. rewrite A2, B2. repeat split; try reflexivity; assumption.
@@ -342,9 +371,9 @@ Proof.
   destruct H as [H|[]]. split; [reflexivity|exact H].
 Qed.
 
-(* a declared reference comes from a top-level input filter or a block-field filter *)
+(* a declared reference comes from the filter of an input (component at any depth) or of a block field *)
 Lemma declared_ref_filter : forall g R, In R (declared_refs g) ->
-  exists f, ((exists i, In i (ig_inputs g) /\ f = i_flt i) \/ (exists b, In b (ig_block g) /\ f = bd_flt b))
+  exists f, ((exists i, In i (all_inputs (ig_inputs g)) /\ f = i_flt i) \/ (exists b, In b (ig_block g) /\ f = bd_flt b))
             /\ is_nil (r_ig (f_ref f)) = false /\ r_ig (f_ref f) = R.
 Proof.
   intros g R H. unfold declared_refs, input_refs, block_refs in H. apply in_app_or in H.
@@ -354,7 +383,7 @@ Proof.
 Qed.
 
 Lemma resolved_filter_of : forall igs g f, filters_resolved igs g ->
-  ((exists i, In i (ig_inputs g) /\ f = i_flt i) \/ (exists b, In b (ig_block g) /\ f = bd_flt b)) ->
+  ((exists i, In i (all_inputs (ig_inputs g)) /\ f = i_flt i) \/ (exists b, In b (ig_block g) /\ f = bd_flt b)) ->
   ref_resolved igs f.
 Proof.
   intros igs g f (R1 & R2) [(i & Hi & ->)|(b & Hb & ->)].
@@ -506,7 +535,7 @@ Lemma lookups_of_resolved : forall igs g t col,
 Proof.
   intros igs g t col (R1 & R2) Hflat Hin. unfold cfg_lookups, input_lookups, block_lookups in Hin.
   apply in_app_or in Hin. destruct Hin as [Hin|Hin]; apply in_flat_map in Hin; destruct Hin as (x & Hx & Hl).
-  - apply selected_sub in Hx. unfold flat in Hflat. rewrite (all_inputs_flat _ Hflat) in Hx.
+  - apply selected_sub in Hx.
     rewrite Forall_forall in R1. destruct (resolved_lookup _ _ _ _ (R1 _ Hx) Hl) as (A & B & C).
     exists (r_ig (f_ref (i_flt x))). split; [|split; assumption].
     unfold declared_refs, input_refs. apply in_or_app. left. apply in_flat_map. exists x. split; assumption.
@@ -534,12 +563,25 @@ Proof.
   exists R. split; [exact A|]. split; [exact (Hd _ A)|]. split; assumption.
 Qed.
 
-(* a filter_ref on a component: validated, no dependency, the lookup is issued *)
-Lemma nested_ref_escapes_l :
+(* BEFORE the repair (legacy_validate_fix): a filter_ref on a component was
+   accepted, no dependency recorded, the lookup issued -- with the
+   user-supplied table *)
+Lemma legacy_nested_ref_escapes_l :
+  match legacy_validate_fix U_ascii ex_G ex_nested_root with
+  | Some c' =>
+      map (fun g => (ig_deps g, legacy_declared_refs g, declared_refs_deep g, cfg_lookups g)) (integs c')
+      = [([], [], [], []); ([], [], [s2r "a"], [(s2r "ta", s2r "addr")])]
+  | None => False
+  end.
+Proof. vm_compute. reflexivity. Qed.
+
+(* AFTER the repair the component's reference is validated like a top-level
+   one: the dependency is recorded *)
+Lemma nested_ref_validated_l :
   match validate_fix U_ascii ex_G ex_nested_root with
   | Some c' =>
-      map (fun g => (ig_deps g, declared_refs g, declared_refs_deep g, cfg_lookups g)) (integs c')
-      = [([], [], [], []); ([], [], [s2r "a"], [(s2r "ta", s2r "addr")])]
+      map (fun g => (ig_deps g, declared_refs g, cfg_lookups g)) (integs c')
+      = [([], [], []); ([s2r "a"], [s2r "a"], [(s2r "ta", s2r "addr")])]
   | None => False
   end.
 Proof. vm_compute. reflexivity. Qed.
@@ -608,7 +650,7 @@ Lemma consulted_of_resolved : forall igs g d t col,
   exists R, In R (declared_refs g) /\ ref_table_of igs R = Some t /\ mem col (cols_of_table igs t) = true.
 Proof.
   intros igs g d t col (R1 & R2) Hs Hin. destruct (consulted_sub _ _ _ Hs Hin) as [(x & Hx & Hl)|(x & Hx & Hl)].
-  - rewrite Forall_forall in R1. destruct (resolved_lookup _ _ _ _ (R1 _ Hx) Hl) as (A & B & C).
+  - apply top_in_all in Hx. rewrite Forall_forall in R1. destruct (resolved_lookup _ _ _ _ (R1 _ Hx) Hl) as (A & B & C).
     exists (r_ig (f_ref (i_flt x))). split; [|split; assumption].
     unfold declared_refs, input_refs. apply in_or_app. left. apply in_flat_map. exists x. split; assumption.
   - rewrite Forall_forall in R2. destruct (resolved_lookup _ _ _ _ (R2 _ Hx) Hl) as (A & B & C).
